@@ -122,12 +122,15 @@ func (s *Streamer) parseEvents(ctx context.Context, events <-chan replication.Bi
 
 	commit := func(ev replication.BinlogEvent) error {
 		now := pos
-		pos.Offset = ev.NextPosition()
 		next := pos
+		next.Offset = ev.NextPosition()
 		tran := newTransaction(now, next, int64(ev.Timestamp()), tranEvents)
 		if err = s.sendTransaction(tran); err != nil {
 			return fmt.Errorf("sendTransaction error: %v", err)
 		}
+		// Only move on once the handler has accepted the transaction, so
+		// that a rejected transaction is delivered again after a restart.
+		pos = next
 		tranEvents = nil
 		autocommit = true
 		return nil
@@ -278,7 +281,7 @@ func (s *Streamer) parseEvents(ctx context.Context, events <-chan replication.Bi
 			}
 
 			if len(info.Columns()) != tm.CanBeNull.Count() {
-				return Position{},
+				return pos,
 					newError(fmt.Errorf("parseEvents the length of column in tableMap(%d) "+
 						"did not equal to the length of column in table info(%d)", tm.CanBeNull.Count(),
 						len(info.Columns())))
